@@ -32,7 +32,8 @@ type concurrentTxn struct {
 func NewConcurrentTxnFrom(ctx context.Context, rootstore corekv.TxnStore, id uint64, readonly bool) *BasicTxn {
 	rootTxn := rootstore.NewTxn(readonly)
 	rootConcurentTxn := &concurrentTxn{Txn: rootTxn}
-	multistore := NewMultistore(rootTxn)
+	// the stores must go through the mutex-guarded wrapper, not through the bare transaction
+	multistore := NewMultistore(rootConcurentTxn)
 
 	return &BasicTxn{
 		Multistore: multistore,
